@@ -191,8 +191,12 @@ def tabulate():
     V = c02._buffer_type("VCFBuffer")
     hdr = V.make_header(VCFWithInfoAsStringEntry.empty())
     FQ = c02._buffer_type("FastQBuffer")
-    return dict(W=W, wrap=wrap, vcfHeader=list(hdr), fastqOffsets=[int(x) for x in FQ._line_offsets], fastqMarker=ord(FQ.HEADER),
-                fastaMarker=ord(ML._new_entry_marker), fastqLines=int(FQ.n_lines_per_entry))
+    # record markers and per-line offsets are observed on what `from_data` writes and `get_data` reads back
+    # (c02._probe_kline), not read from private class attributes
+    fq_marker, fq_offs = c02._probe_kline(FQ, int(FQ.n_lines_per_entry))
+    fa_marker, _ = c02._probe_kline(ML, 0)
+    return dict(W=W, wrap=wrap, vcfHeader=list(hdr), fastqOffsets=[int(x) for x in fq_offs], fastqMarker=int(fq_marker),
+                fastaMarker=int(fa_marker), fastqLines=int(FQ.n_lines_per_entry))
 
 
 def regenerate():
